@@ -220,3 +220,144 @@ Proof.
     + cbn [fst] in H. congruence.
   - exfalso. destruct same; destruct s; cbn in *; congruence.
 Qed.
+
+Definition from_or_written (s s' : state) (o : list output) : Prop :=
+  forall r, In r (reqs s') -> (exists r0, In r0 (reqs s) /\ r_h r0 = r_h r) \/ In (OWrite (r_h r) (r_id r)) o.
+
+Lemma sub_from s s' o : sub_flags (s_t s) (s_t s') -> from_or_written s s' o.
+Proof. intros S r Hr. left. destruct (S r Hr) as (x & Hx & _ & _ & E). exists x. auto. Qed.
+
+Lemma up_step s e s' o : CInv s -> s_proto s = true -> step s e = (s', o) -> s_proto s' = true ->
+  from_or_written s s' o.
+Proof.
+  intros C P H P'. pose proof (ci_t s C) as T. destruct e; cbn [step] in H; rewrite ?P in H.
+  - (* makeRequest on the live connection: written at once *)
+    unfold make_request in H. destruct (lookup rid (t_reqs (s_t s))) eqn:L.
+    { injection H as <- <-. apply sub_from. apply sub_flags_refl. }
+    destruct (s_down s) eqn:D.
+    + rewrite P in H.
+      set (hh := length (t_dlog (s_t s))) in *.
+      assert (Hh : ~ In hh (t_fired (s_t s))). { intro F. apply (ti_fired_lt _ T) in F. unfold hh in F. lia. }
+      set (r1 := mkReq rid hh expect false false) in *.
+      set (t1 := mkT (t_reqs (s_t s) ++ [r1]) (t_dlog (s_t s) ++ [rid]) (t_fired (s_t s))) in *.
+      assert (T1 : TInv t1) by (apply TInv_add; auto).
+      pose proof (send_request_new t1 (t_reqs (s_t s)) r1 eq_refl (ti_ids _ T1) eq_refl Hh) as SR.
+      unfold lift in H. rewrite SR in H. cbn [fst snd] in H. injection H as <- <-.
+      intros r Hr. unfold reqs in Hr. destruct s as [t0 p0 rx0 c0 d0 f0 a0]. cbn [with_t s_t t_reqs] in Hr.
+      apply in_app_iff in Hr. destruct Hr as [Hr|Hr]; [left; exists r; auto|].
+      right. unfold sq_reqs in Hr. cbn [filter r_expect r1] in Hr. destruct expect; cbn in Hr; [|contradiction].
+      destruct Hr as [<-|[]]. cbn. left. reflexivity.
+    + unfold lift in H. injection H as <- <-. intros r Hr. left. exists r. split; [|reflexivity].
+      unfold reqs in *. destruct (fire _ _ _) eqn:F. pose proof (fire_reqs (mkT (t_reqs (s_t s)) (t_dlog (s_t s) ++ [rid]) (t_fired (s_t s))) (length (t_dlog (s_t s))) FailClosed) as X.
+      rewrite F in X. cbn [fst] in X. destruct s; cbn in *. rewrite X in Hr. exact Hr.
+    + unfold lift in H. injection H as <- <-. intros r Hr. left. exists r. split; [|reflexivity].
+      unfold reqs in *. destruct (fire _ _ _) eqn:F. pose proof (fire_reqs (mkT (t_reqs (s_t s)) (t_dlog (s_t s) ++ [rid]) (t_fired (s_t s))) (length (t_dlog (s_t s))) FailClosed) as X.
+      rewrite F in X. cbn [fst] in X. destruct s; cbn in *. rewrite X in Hr. exact Hr.
+  - unfold lift in H. injection H as <- <-. apply sub_from. destruct s; apply cancel_sub.
+  - rewrite (ci_conn s C P) in H. injection H as <- <-. apply sub_from. apply sub_flags_refl.
+  - rewrite (ci_conn s C P) in H. injection H as <- <-. apply sub_from. apply sub_flags_refl.
+  - (* connectionLost: the connection is no longer up *)
+    exfalso. destruct (s_down _); [destruct (map _ _)|..];
+      repeat match goal with H0 : context [fire_down ?x] |- _ => unfold fire_down in H0; destruct (s_down x) end;
+      unfold connect, try_connect in H; injection H as <- _; destruct s; cbn in *; congruence.
+  - rewrite <- (surjective_pairing (data_in s chunk)) in H. injection H as <- <-. apply sub_from. apply data_in_sub.
+  - rewrite <- (surjective_pairing (data_in s (encode_frame body))) in H. injection H as <- <-. apply sub_from. apply data_in_sub.
+  - rewrite (ci_conn s C P) in H. injection H as <- <-. apply sub_from. apply sub_flags_refl.
+  - pose proof (close_quiet s) as (_ & _ & S & _). cbn [step] in S. rewrite P in S.
+    assert (E : s' = fst (s', o)) by reflexivity. rewrite E, <- H. apply sub_from. exact S.
+  - injection H as <- <-. apply sub_from. apply sub_flags_refl.
+  - destruct same; injection H as <- <-; apply sub_from; destruct s; apply sub_flags_refl.
+Qed.
+
+Lemma up_run : forall evs s s' o, CInv s -> s_proto s = true -> stays_up s evs -> run s evs = (s', o) ->
+  from_or_written s s' o.
+Proof.
+  induction evs as [|e evs IH]; intros s s' o C P U H; cbn [run] in H.
+  - injection H as <- <-. intros r Hr. left. exists r. auto.
+  - destruct (step s e) as [s1 o1] eqn:E1. destruct (run s1 evs) as [s2 o2] eqn:E2. injection H as <- <-.
+    cbn [stays_up] in U. rewrite E1 in U. cbn [fst] in U. destruct U as [P1 U1].
+    pose proof (proj1 (step_inv _ _ _ _ C E1)) as C1.
+    pose proof (up_step _ _ _ _ C P E1 P1) as A. pose proof (IH _ _ _ C1 P1 U1 E2) as B.
+    intros r Hr. destruct (B r Hr) as [(r1 & Hr1 & Eh)|W]; [|right; apply in_app_iff; right; exact W].
+    destruct (A r1 Hr1) as [(r0 & Hr0 & Eh0)|W].
+    + left. exists r0. split; [exact Hr0 | congruence].
+    + right. apply in_app_iff. left.
+      (* same handle, hence same id: both entries satisfy entry_ok w.r.t. logs that extend each other *)
+      assert (r_id r1 = r_id r).
+      { destruct (TInv_entry _ r1 (ci_t _ C1) Hr1) as (X1 & _).
+        pose proof (run_inv _ _ _ _ C1 E2) as (C2 & (x & D2) & _).
+        destruct (TInv_entry _ r (ci_t _ C2) Hr) as (X2 & _). rewrite D2 in X2.
+        rewrite nth_error_app1 in X2 by (apply nth_error_Some; rewrite <- Eh; congruence).
+        rewrite <- Eh in X2. congruence. }
+      rewrite <- Eh, <- H. exact W.
+Qed.
+
+(* the last time the connection came up *)
+Lemma last_up : forall evs s0 s o, CInv s0 -> run s0 evs = (s, o) -> s_proto s = true ->
+  (s_proto s0 = true /\ stays_up s0 evs)
+  \/ exists evs1 evs2 s1 o1 s2 oc o2, evs = evs1 ++ EConnOk :: evs2 /\ run s0 evs1 = (s1, o1)
+       /\ s_connector s1 = CAttempt /\ step s1 EConnOk = (s2, oc) /\ s_proto s2 = true
+       /\ stays_up s2 evs2 /\ run s2 evs2 = (s, o2) /\ o = o1 ++ oc ++ o2.
+Proof.
+  induction evs as [|e evs IH]; intros s0 s o C H P; cbn [run] in H.
+  - injection H as <- <-. left. split; [exact P | exact I].
+  - destruct (step s0 e) as [s1 o1] eqn:E1. destruct (run s1 evs) as [s2 o2] eqn:E2. injection H as <- <-.
+    pose proof (proj1 (step_inv _ _ _ _ C E1)) as C1.
+    destruct (IH s1 s2 o2 C1 E2 P) as [[P1 U1]|(evs1 & evs2 & sa & oa & sb & oc & ob & -> & R1 & K & St & Pb & U & R2 & ->)].
+    + destruct (s_proto s0) eqn:P0.
+      * left. split; [reflexivity|]. cbn [stays_up]. rewrite E1. cbn [fst]. auto.
+      * right. pose proof (proto_on s0 e C P0) as X. rewrite E1 in X. cbn [fst] in X. destruct (X P1) as [-> K].
+        exists [], evs, s0, [], s1, o1, o2. cbn [app run]. repeat split; auto.
+    + right. exists (e :: evs1), evs2, sa, (o1 ++ oa), sb, oc, ob. cbn [app run]. rewrite E1, R1.
+      repeat split; auto. rewrite <- app_assoc. reflexivity.
+Qed.
+
+(* C10 "exactly once per connection", lower bound at the level of traces: in every run that ends connected there is a
+   point where the connection that is up was established (an enabled EConnOk), after which it was never lost, and every
+   entry of the final table was WRITTEN (OWrite with its handle and id) at or after that point *)
+Theorem written_on_current_connection evs s outs : run init evs = (s, outs) -> s_proto s = true ->
+  exists evs1 evs2 s1 o1 s2 oc o2, evs = evs1 ++ EConnOk :: evs2 /\ run init evs1 = (s1, o1)
+    /\ s_connector s1 = CAttempt /\ step s1 EConnOk = (s2, oc) /\ stays_up s2 evs2 /\ run s2 evs2 = (s, o2)
+    /\ outs = o1 ++ oc ++ o2
+    /\ forall r, In r (t_reqs (s_t s)) -> In (OWrite (r_h r) (r_id r)) (oc ++ o2).
+Proof.
+  intros H P. destruct (last_up evs init s outs CInv_init H P) as [[P0 _]|X]; [discriminate P0|].
+  destruct X as (evs1 & evs2 & s1 & o1 & s2 & oc & o2 & E & R1 & K & St & P2 & U & R2 & Eo).
+  exists evs1, evs2, s1, o1, s2, oc, o2. repeat split; auto.
+  pose proof (proj1 (run_inv _ _ _ _ CInv_init R1)) as C1.
+  pose proof (proj1 (step_inv _ _ _ _ C1 St)) as C2.
+  destruct (resend s1 C1 K) as (s2' & E2 & W & _ & _ & Rq & _). rewrite St in E2. injection E2 as <- ->.
+  intros r Hr. apply in_app_iff.
+  destruct (up_run evs2 s2 s o2 C2 P2 U R2 r Hr) as [(r0 & Hr0 & Eh)|Wr]; [left | right; exact Wr].
+  (* r0 is an entry of the table right after the connection came up: all of those were written by that step *)
+  unfold reqs in Hr0. rewrite Rq in Hr0. unfold sq_reqs in Hr0. apply in_map_iff in Hr0. destruct Hr0 as (q & <- & Hq).
+  apply filter_In in Hq. destruct Hq as [Hq _].
+  assert (In (r_h q, r_id q) (writes (sq_outs (t_reqs (s_t s1))))) by (rewrite W; apply (in_map (fun r => (r_h r, r_id r))); exact Hq).
+  assert (Ei : r_id q = r_id r).
+  { destruct (TInv_entry _ q (ci_t _ C1) Hq) as (X1 & _).
+    pose proof (run_inv _ _ _ _ C2 R2) as (C3 & (x & D3) & _).
+    pose proof (step_inv _ _ _ _ C1 St) as (_ & (y & D2) & _).
+    destruct (TInv_entry _ r (ci_t _ C3) Hr) as (X2 & _). rewrite D3, D2, <- app_assoc in X2. cbn [set_sent r_h] in Eh.
+    rewrite nth_error_app1 in X2 by (apply nth_error_Some; rewrite <- Eh; congruence).
+    rewrite <- Eh in X2. congruence. }
+  cbn [set_sent r_h] in Eh. rewrite <- Eh, <- Ei.
+  clear - H0. unfold writes in H0. induction (sq_outs (t_reqs (s_t s1))) as [|x l IH]; [contradiction|].
+  destruct x; cbn in H0; try (right; apply IH; exact H0).
+  destruct H0 as [E|H0]; [left; injection E as -> ->; reflexivity | right; apply IH; exact H0].
+Qed.
+
+(* ------------------------------------------------------------------ one received frame, two requests (outside the fault model) *)
+(* After the receiver aborted (length limit / short frame) Twisted keeps the whole buffer and re-parses it on every later
+   dataReceived.  IF the transport keeps delivering after loseConnection() was requested AND the caller re-uses the
+   correlation id on that doomed connection, the frame already consumed completes the new request as well. *)
+Theorem frame_instance_refuted : exists evs s outs h1 h2 f stream,
+  run init evs = (s, outs) /\ h1 <> h2 /\ In (ODef h1 (Succ f)) outs /\ In (ODef h2 (Succ f)) outs
+  /\ In OLose outs
+  /\ concat (flat_map (fun e => match e with EData c => [c] | _ => [] end) evs) = stream
+  /\ stream = encode_frame f ++ enc32 2147483648 ++ [9].
+Proof.
+  exists [EMake 1 true; EConnOk; EData (encode_frame [0;0;0;1;79] ++ [128;0;0;0]); EMake 1 true; EData [9]].
+  eexists. eexists. exists 0%nat, 1%nat, [0;0;0;1;79]. eexists.
+  split; [vm_compute; reflexivity|]. split; [discriminate|].
+  split; [cbn; auto 10|]. split; [cbn; auto 10|]. split; [cbn; auto 10|]. split; vm_compute; reflexivity.
+Qed.
